@@ -75,6 +75,16 @@ def _models(tier):
       feature_configs=[_fc('a', monotonicity='decreasing', nk=3, default_value=0.0), _fc('c', num_buckets=3, monotonicity=[(0, 2)], default_value=-1)],
       use_bias=False, output_min=-1.0, output_max=1.0, output_initialization=[-1.0, 1.0])),
             [('a', 'decreasing'), ('c', ('pair', 0, 2))], (-1.0, 1.0), dict(a=[0.0, 1.0, 2.0]), dict(a=0.0)))
+  M.append(('calibrated-lattice-always-monotonic', lambda: P.CalibratedLattice(C.CalibratedLatticeConfig(
+      feature_configs=[_fc('a', monotonicity='increasing', nk=nk, pwl_calibration_always_monotonic=True),
+                       _fc('b', monotonicity='decreasing', nk=nk, pwl_calibration_always_monotonic=True),
+                       _fc('c', nk=nk, pwl_calibration_always_monotonic=True)],
+      output_min=0.0, output_max=1.0, output_initialization=[0.0, 1.0])),
+            [('a', 'increasing'), ('b', 'decreasing')], (0.0, 1.0)))
+  M.append(('calibrated-linear-always-monotonic', lambda: P.CalibratedLinear(C.CalibratedLinearConfig(
+      feature_configs=[_fc('a', monotonicity=-1, nk=3, pwl_calibration_always_monotonic=True), _fc('b', nk=nk, pwl_calibration_always_monotonic=True)],
+      use_bias=True, output_initialization=[0.0, 1.0])),
+            [('a', 'decreasing')], None, dict(a=[0.0, 1.0, 2.0])))
   M.append(('calibrated-lattice-output-calibration', lambda: P.CalibratedLattice(C.CalibratedLatticeConfig(
       feature_configs=[_fc('a', monotonicity='increasing', nk=nk), _fc('b', nk=nk)], output_min=0.0, output_max=1.0, output_calibration=True,
       output_calibration_num_keypoints=2, output_initialization=[0.0, 1.0])),
@@ -440,7 +450,7 @@ def cases(tier, seed):
   for m in _models(tier):
     hard = m[0] in ('calibrated-lattice-kfl', 'ensemble-rtl', 'ensemble-rtl-unconstrained-first', 'ensemble-explicit', 'ensemble-linear-combination',
                     'ensemble-linear-combination-upper-bound', 'ensemble-linear-combination-bounded',
-                    'calibrated-lattice-output-calibration', 'calibrated-lattice-missing')
+                    'calibrated-lattice-output-calibration', 'calibrated-lattice-missing', 'calibrated-lattice-always-monotonic')
     out.append(dict(name=m[0], fn='case_model', params=dict(name=m[0], model=m[0], tier=tier, required=not hard, split=False,
                                                             timeout=(40 if hard else 90) if tier == 'quick' else 200),
                     cap=1500, required=not hard))
